@@ -8,6 +8,8 @@ use std::io::{BufRead, Write};
 use std::path::Path;
 
 mod dump;
+mod front;
+mod lsp;
 
 fn diag_json(d: &Diagnostic) -> Value {
     json!({
@@ -71,8 +73,10 @@ fn main() {
                 writeln!(out, "{v}").unwrap();
             }
         }
+        Some("front") => front::main(&args[2..]),
+        Some("lsp") => lsp::main(&args[2..]),
         _ => {
-            eprintln!("usage: lv-harness gen <in.llw> <outdir> | batch-gen");
+            eprintln!("usage: lv-harness gen <in.llw> <outdir> | batch-gen | front … | lsp …");
             std::process::exit(2);
         }
     }
